@@ -7,6 +7,7 @@ Oracle: snapshots equal; after build_code every cell evaluates to the same value
 in both; .gz/.gzip (any case) files are gzip, all others plain JSON.
 """
 import datetime
+import copy
 import os
 
 from vlib import bootstrap, build, gen, monitors, ref, subject
@@ -34,7 +35,9 @@ FLOORS = {'round_trips': 150, 'point_uncompiled': 10, 'point_compiled': 10,
           'reused_loader': 20, 'frozen_formula_models': 10,
           'overwritten_files': 50, 'loaded_twice': 20,
           'names_compared_after_evaluation': 50,
-          'fresh_process_loads': 8}
+          'fresh_process_loads': 8,
+          'evaluators_attached_before_loading': 15,
+          'emptied_inputs_persisted': 5}
 ANCHOR_FUNCS = {'xlcalculator/model.py': ['Model.persist_to_json_file',
                                           'Model.construct_from_json_file',
                                           'Model.build_code']}
@@ -198,8 +201,11 @@ def run(ctx):
                         pass
             if point == 'overwritten':
                 for k in m.inputs[:4]:
-                    v = rng.choice(NUMS + TEXTS[:3] + [True])
-                    if rng.random() < 0.5:
+                    v = rng.choice(NUMS + TEXTS[:3] + [True, '', None, 0,
+                                                       False])
+                    if v in ('', None) and not isinstance(v, bool):
+                        ctx.event('emptied_inputs_persisted')
+                    if rng.random() < 0.5 and v is not None:
                         v = T.ExcelType.cast_from_native(v)
                     ev.set_cell_value(build.addr(k), v)
                 if rng.random() < 0.5:
@@ -281,6 +287,27 @@ def run(ctx):
                              monitor='construction', group='build_code')
                     continue
             ev_o, ev_r = Evaluator(model), Evaluator(restored)
+            # an Evaluator that was attached to its (still empty, or
+            # otherwise filled) Model BEFORE the file was constructed into it
+            ev_early = None
+            if rng.random() < 0.4:
+                try:
+                    early = Model() if rng.random() < 0.5 else \
+                        copy.deepcopy(model)
+                    ev_early = Evaluator(early)
+                    for a_ in list(early.cells)[:3]:
+                        subject.outcome_of(lambda: ev_early.evaluate(a_))
+                        if early.cells[a_].formula is None:
+                            ev_early.set_cell_value(a_, 31337)
+                    early.construct_from_json_file(fname, build_code=True)
+                    ctx.event('evaluators_attached_before_loading')
+                except Exception as e:  # noqa
+                    ctx.fail(f'constructing the file into a model that has an '
+                             f'Evaluator raised {e!r}',
+                             {'cells': build.dict_of(wb), 'point': point},
+                             monitor='round-trip-raises',
+                             group='raises:early-evaluator')
+                    ev_early = None
             bad = []
             for a in sorted(model.cells):
                 go = subject.outcome_of(lambda: ev_o.evaluate(a))
@@ -291,6 +318,13 @@ def run(ctx):
                         ('value', nan_safe(gr[1]))
                 if go != gr:
                     bad.append((a, go, gr))
+                if ev_early is not None:
+                    ge = subject.outcome_of(lambda: ev_early.evaluate(a))
+                    if ge[0] == 'value':
+                        ge = ('value', nan_safe(ge[1]))
+                    if ge != go:
+                        bad.append((a, go, ('evaluator attached before the '
+                                            'load', ge)))
             if not bad and len(kept_for_fresh) < (6 if thorough else 2) and \
                     point in ('evaluated', 'overwritten', 'reevaluated'):
                 # the same file read by ANOTHER process that has done nothing
